@@ -9,6 +9,8 @@ import ScVerif.C09.SendTimeout
 * `drun <move>*`                  the same for `DropExcess` over opaque tokens: `r:<tok>` / `e`
 * `send <deadline> <listener>*`   `Bus.Send` with a deadline over listeners `<readyAt>/<cancelledAt>` (`-` = never)
                                   → `ok@<t>` or `deadline@<t>`
+* `set <deadline> <listener>*`    `Value.set` after its commit: `Bus.Send` as above, then the error mapping
+                                  (`setReturnsError`) → `error@<t>` or `ok@<t>`
 -/
 namespace ScVerif.C09
 open ScVerif.Line
@@ -51,6 +53,10 @@ def handle? (toks : List String) : Option String :=
     let dl ← parseNat? dl
     let ls ← ls.mapM parseListener?
     pure (showSendResult (busSend dl 0 ls))
+  | "set" :: dl :: ls => do
+    let dl ← parseNat? dl
+    let ls ← ls.mapM parseListener?
+    pure ((if setReturnsError dl ls then "error@" else "ok@") ++ toString (busSend dl 0 ls).time)
   | ["merge", a, b] => do
     let a ← parseChange? a
     let b ← parseChange? b
